@@ -443,4 +443,346 @@ theorem readDelimited_spec {env : Env} (hfix : env.cfg.fixH = true) (G : NumKind
     rw [if_pos h1']
     exact ⟨rfl, h2, h3⟩
 
+
+/-! ### ReadWordSameLine -/
+
+def sameLineSpace (d : Byte → Bool) (b : Byte) : Bool := d b && b != 10
+
+theorem specOp_readWordSameLine (G : NumKind → Grammar) (d : Byte → Bool) (rest : List Byte) :
+    specOp G (.readWordSameLine d) rest =
+      match rest.dropWhile (sameLineSpace d) with
+      | [] => (Res.noWord, (rest.takeWhile (sameLineSpace d)).length)
+      | c :: r => if d c then (Res.noWord, (rest.takeWhile (sameLineSpace d)).length)
+                  else (Res.bytes ((c :: r).takeWhile (fun b => !d b)),
+                        (rest.takeWhile (sameLineSpace d)).length + ((c :: r).takeWhile (fun b => !d b)).length) := by
+  simp only [specOp]
+  show (match rest.drop (rest.takeWhile (sameLineSpace d)).length with
+        | [] => _ | c :: r => _) = _
+  rw [drop_takeWhile_length]
+  rfl
+
+theorem wordSkip_spec {env : Env} (hfix : env.cfg.fixH = true) (d : Byte → Bool) :
+    ∀ (f : Nat) (st : St), Inv env st → (st.rest env).length < f →
+      let out := wordSkip env d f st
+      out.2.offset = st.offset + ((st.rest env).takeWhile (sameLineSpace d)).length ∧ Inv env out.2 ∧
+      out.2.rest env = (st.rest env).dropWhile (sameLineSpace d) ∧
+      (match (st.rest env).dropWhile (sameLineSpace d) with
+       | [] => out.1 = Res.noWord
+       | c :: _ => if d c then out.1 = Res.noWord else out.1 = Res.skipped) := by
+  intro f
+  induction f with
+  | zero => intro st _ hl; omega
+  | succ f ih =>
+    intro st h hl
+    simp only [wordSkip]
+    have hf := front_spec hfix h
+    cases hfr : front env st with
+    | byte c st' =>
+      rw [hfr] at hf
+      obtain ⟨hi, ho, ⟨t, hv⟩, r, hr⟩ := hf
+      dsimp only
+      by_cases hd : d c
+      · by_cases hnl : c = 10
+        · subst hnl
+          have hsl : sameLineSpace d 10 = false := by simp [sameLineSpace]
+          simp only [hd, Bool.not_true, Bool.false_eq_true, ↓reduceIte, beq_self_eq_true]
+          rw [hr]
+          simp only [List.takeWhile, List.dropWhile, hsl]
+          refine ⟨by simpa using ho, hi, by rw [rest_of_offset_eq ho, hr], ?_⟩
+          simp [hd]
+        · have hsl : sameLineSpace d c = true := by simp [sameLineSpace, hd, hnl]
+          have hne : (c == 10) = false := by simp [hnl]
+          simp only [hd, Bool.not_true, Bool.false_eq_true, ↓reduceIte, hne]
+          have hi' := hi.advance 1 (by rw [hv]; simp)
+          have hrest' : ({ st' with pos := st'.pos + 1 } : St).rest env = r := by
+            rw [rest_advance, rest_of_offset_eq ho, hr]; simp
+          have := ih _ hi' (by rw [hrest']; rw [hr] at hl; simp at hl; omega)
+          simp only at this
+          rw [hrest'] at this
+          obtain ⟨a, b, c', e⟩ := this
+          rw [hr]
+          simp only [List.takeWhile, List.dropWhile, hsl]
+          refine ⟨?_, b, c', e⟩
+          rw [a, offset_advance, ho]; simp; omega
+      · have hsl : sameLineSpace d c = false := by simp [sameLineSpace, hd]
+        simp only [hd, Bool.not_false, ↓reduceIte]
+        rw [hr]
+        simp only [List.takeWhile, List.dropWhile, hsl]
+        refine ⟨by simpa using ho, hi, by rw [rest_of_offset_eq ho, hr], ?_⟩
+        simp [hd]
+    | endSeen st' =>
+      rw [hfr] at hf
+      obtain ⟨hi, ho, hr, _⟩ := hf
+      dsimp only
+      rw [hr]
+      exact ⟨by simpa using ho, hi, by rw [rest_of_offset_eq ho, hr]; rfl, rfl⟩
+    | eofExc st' =>
+      rw [hfr] at hf
+      obtain ⟨rfl, hr, _⟩ := hf
+      dsimp only
+      rw [hr]
+      exact ⟨by simp, h, rfl, rfl⟩
+
+theorem readWordSameLine_spec {env : Env} (hfix : env.cfg.fixH = true) (G : NumKind → Grammar) (d : Byte → Bool)
+    (f : Nat) (st : St) (h : Inv env st) (hf : env.bytes.length + 1 < f) :
+    (readWordSameLine env d f st).1 = (specOp G (.readWordSameLine d) (st.rest env)).1 ∧
+    (readWordSameLine env d f st).2.offset = st.offset + (specOp G (.readWordSameLine d) (st.rest env)).2 ∧
+    Inv env (readWordSameLine env d f st).2 := by
+  have hrl : (st.rest env).length < f := by rw [h.rest_length]; omega
+  have hs := wordSkip_spec hfix d f st h hrl
+  simp only at hs
+  obtain ⟨h1, h2, h3, h4⟩ := hs
+  rw [specOp_readWordSameLine]
+  unfold readWordSameLine
+  generalize hout : wordSkip env d f st = out at h1 h2 h3 h4
+  obtain ⟨r, st1⟩ := out
+  simp only at h1 h2 h3 h4
+  cases hdw : (st.rest env).dropWhile (sameLineSpace d) with
+  | nil =>
+    rw [hdw] at h4
+    dsimp only at h4 ⊢
+    subst h4
+    exact ⟨rfl, h1, h2⟩
+  | cons c t =>
+    rw [hdw] at h4
+    dsimp only at h4 ⊢
+    by_cases hd : d c
+    · rw [if_pos hd] at h4 ⊢
+      subst h4
+      exact ⟨rfl, h1, h2⟩
+    · rw [if_neg hd] at h4 ⊢
+      subst h4
+      dsimp only
+      have := find_consume hfix d f st1 h2 (by have := mu_le env st1; omega)
+      simp only at this
+      rw [h3, hdw, if_neg (by simp)] at this
+      obtain ⟨t1, t2⟩ := this
+      exact ⟨t1.1, Eq.trans t1.2 (by rw [h1]; omega), t2⟩
+
+
+/-! ### ReadNumber: "wait until a space follows the number inside the window, or hallucinate the
+terminator at EOF" -/
+
+/-- What the theorems assume about the third-party number grammar (strtol, strtoul,
+double-conversion behind kenlm's `ParseNumber`): it never consumes more than it was given, its
+result depends only on the bytes before the first space, and the empty string is an error. -/
+structure GrammarOK (P : Grammar) : Prop where
+  count_le : ∀ s v c, P s = some (v, c) → c ≤ s.length
+  prefix_det : ∀ tok sp junk, (∀ b ∈ tok, isSpace b = false) → isSpace sp = true →
+    P (tok ++ sp :: junk) = P tok
+  empty : P [] = none
+
+theorem idxOf_of_hit {p : Byte → Bool} {l : List Byte} {j : Nat} (hj : j < l.length)
+    (hp : p (l.getD j 0) = true) : ∃ i, idxOf p l = some i ∧ i ≤ j := by
+  induction l generalizing j with
+  | nil => simp at hj
+  | cons a l ih =>
+    simp only [idxOf]
+    by_cases ha : p a
+    · exact ⟨0, by simp [ha], Nat.zero_le _⟩
+    · cases j with
+      | zero => simp at hp; exact absurd hp ha
+      | succ j =>
+        simp only [List.getD_eq_getElem?_getD, List.getElem?_cons_succ] at hp
+        obtain ⟨i, hi, hle⟩ := ih (j := j) (by simpa using hj) (by simpa [List.getD_eq_getElem?_getD] using hp)
+        exact ⟨i + 1, by simp [ha, hi], by omega⟩
+
+theorem idxOf_take_of_lt {p : Byte → Bool} {l : List Byte} {i j : Nat} (h : idxOf p l = some i) (hij : i < j) :
+    idxOf p (l.take j) = some i := by
+  induction l generalizing i j with
+  | nil => simp [idxOf] at h
+  | cons a l ih =>
+    cases j with
+    | zero => omega
+    | succ j =>
+      simp only [idxOf, List.take_succ_cons] at h ⊢
+      by_cases ha : p a
+      · simpa [ha] using h
+      · simp [ha] at h ⊢
+        obtain ⟨k, hk, rfl⟩ := h
+        exact ⟨k, ih hk (by omega), rfl⟩
+
+theorem take_split_at (l : List Byte) {i j : Nat} (hij : i < j) (hj : j ≤ l.length) :
+    l.take j = l.take i ++ l.getD i 0 :: (l.take j).drop (i + 1) := by
+  have h1 : l.take j = (l.take j).take i ++ (l.take j).drop i := (List.take_append_drop i _).symm
+  have h2 : (l.take j).take i = l.take i := by rw [List.take_take, Nat.min_eq_left (by omega)]
+  have hlen : i < (l.take j).length := by simp [List.length_take]; omega
+  have h3 : (l.take j).drop i = (l.take j)[i] :: (l.take j).drop (i + 1) := List.drop_eq_getElem_cons hlen
+  have h4 : (l.take j)[i] = l.getD i 0 := by
+    rw [List.getD_eq_getElem?_getD, List.getElem_take]
+    have : i < l.length := by omega
+    simp [this]
+  conv => lhs; rw [h1, h2, h3, h4]
+
+theorem numLoop_spec {env : Env} (hfix : env.cfg.fixH = true) (P : Grammar) (hP : GrammarOK P) :
+    ∀ (f : Nat) (st : St), Inv env st → mu env st < f →
+      (∀ c t, st.rest env = c :: t → isSpace c = false) →
+      let out := numLoop env P f st
+      let tok := (st.rest env).takeWhile (fun b => !isSpace b)
+      (match P tok with
+       | none => out.1 = Res.parseErr tok ∧ out.2.offset = st.offset
+       | some (v, cnt) => out.1 = Res.num v ∧ out.2.offset = st.offset + cnt) ∧ Inv env out.2 := by
+  intro f
+  induction f with
+  | zero => intro st _ hm; omega
+  | succ f ih =>
+    intro st h hmu hhead
+    simp only [numLoop]
+    by_cases hls : st.ls1 ≤ st.pos
+    · rw [if_pos hls]
+      -- no space in the window after position_
+      have hns : ∀ b ∈ st.visible, isSpace b = false := by
+        rcases h.ls with ⟨_, a⟩ | ⟨a, _⟩
+        · exact a
+        · omega
+      cases he : st.atEnd with
+      | true =>
+        simp only [↓reduceIte]
+        have hv := h.visible_atEnd he
+        have hnone : idxOf isSpace st.visible = none := idxOf_none_iff.mpr hns
+        have htok : (st.rest env).takeWhile (fun b => !isSpace b) = st.visible := by
+          rw [← hv]; exact idxOf_none_takeWhile hnone
+        rw [htok]
+        unfold applyParse
+        have hft : firstToken st.visible = st.visible := idxOf_none_takeWhile hnone
+        cases hp : P st.visible with
+        | none => dsimp only; rw [hft]; exact ⟨⟨rfl, rfl⟩, h⟩
+        | some r =>
+          obtain ⟨v, cnt⟩ := r
+          dsimp only
+          refine ⟨⟨rfl, ?_⟩, h.advance cnt (hP.count_le _ _ _ hp)⟩
+          show ({ st with pos := st.pos + cnt } : St).offset = _
+          rw [offset_advance]
+      | false =>
+        simp only [Bool.false_eq_true, ↓reduceIte]
+        obtain ⟨st', hsh, hp⟩ := shift_post hfix h he
+        rw [hsh]
+        dsimp only
+        have := ih st' hp.inv (by have := hp.mu_lt; omega)
+          (by rw [rest_of_offset_eq hp.offset_eq]; exact hhead)
+        simp only at this
+        rw [rest_of_offset_eq hp.offset_eq, hp.offset_eq] at this
+        exact this
+    · rw [if_neg hls]
+      obtain ⟨hl1, hl2, hl3, _⟩ : st.pos < st.ls1 ∧ st.ls1 ≤ st.win.length ∧
+          isSpace (st.win.getD (st.ls1 - 1) 0) = true ∧ ∀ b ∈ st.win.drop st.ls1, isSpace b = false := by
+        rcases h.ls with ⟨a, _⟩ | a
+        · omega
+        · exact a
+      generalize hj : st.ls1 - 1 - st.pos = j
+      have hjlt : j < st.visible.length := by rw [h.visible_length]; omega
+      have hsp : isSpace (st.visible.getD j 0) = true := by
+        have : st.visible.getD j 0 = st.win.getD (st.ls1 - 1) 0 := by
+          simp only [St.visible, List.getD_eq_getElem?_getD, List.getElem?_drop]
+          congr 2; omega
+        rw [this]; exact hl3
+      obtain ⟨i, hi, hij⟩ := idxOf_of_hit hjlt hsp
+      obtain ⟨hi1, hi2⟩ := idxOf_some_spec hi
+      have hilt := idxOf_some_lt hi
+      have hirest : idxOf isSpace (st.rest env) = some i := by
+        have := hi; rw [h.visible_eq] at this; exact idxOf_take_some this
+      have htok : (st.rest env).takeWhile (fun b => !isSpace b) = st.visible.take i := by
+        rw [idxOf_some_takeWhile hirest, h.visible_eq, List.take_take]
+        rw [h.visible_length] at hilt
+        congr 1; omega
+      have htokns : ∀ b ∈ st.visible.take i, isSpace b = false := idxOf_none_iff.mp hi1
+      rw [htok]
+      -- the string handed to ParseNumber parses like the token alone
+      have hstr : P (st.visible.take j) = P (st.visible.take i) ∧
+          firstToken (st.visible.take j) = st.visible.take i := by
+        by_cases hc : i = j
+        · subst hc
+          exact ⟨rfl, idxOf_none_takeWhile hi1⟩
+        · have hlt : i < j := by omega
+          constructor
+          · rw [take_split_at st.visible hlt (by omega)]
+            exact hP.prefix_det _ _ _ htokns hi2
+          · unfold firstToken
+            rw [idxOf_some_takeWhile (idxOf_take_of_lt hi hlt), List.take_take, Nat.min_eq_left (by omega)]
+      unfold applyParse
+      rw [hstr.1, hstr.2]
+      cases hp : P (st.visible.take i) with
+      | none => dsimp only; exact ⟨⟨rfl, rfl⟩, h⟩
+      | some r =>
+        obtain ⟨v, cnt⟩ := r
+        dsimp only
+        have hc := hP.count_le _ _ _ hp
+        rw [List.length_take] at hc
+        refine ⟨⟨rfl, ?_⟩, h.advance cnt (by omega)⟩
+        show ({ st with pos := st.pos + cnt } : St).offset = _
+        rw [offset_advance]
+
+theorem specOp_readNumber (G : NumKind → Grammar) (k : NumKind) (rest : List Byte) :
+    specOp G (.readNumber k) rest =
+      if rest.dropWhile isSpace = [] then (Res.eof, (rest.takeWhile isSpace).length)
+      else match G k ((rest.dropWhile isSpace).takeWhile (fun b => !isSpace b)) with
+        | none => (Res.parseErr ((rest.dropWhile isSpace).takeWhile (fun b => !isSpace b)), (rest.takeWhile isSpace).length)
+        | some (v, cnt) => (Res.num v, (rest.takeWhile isSpace).length + cnt) := by
+  simp only [specOp, drop_takeWhile_length]
+  cases rest.dropWhile isSpace with
+  | nil => rfl
+  | cons a r => rw [if_neg (by simp)]; rfl
+
+theorem dropWhile_head {p : Byte → Bool} {l : List Byte} {c : Byte} {t : List Byte}
+    (h : l.dropWhile p = c :: t) : p c = false := by
+  induction l with
+  | nil => simp at h
+  | cons a l ih =>
+    by_cases ha : p a
+    · simp [List.dropWhile, ha] at h; exact ih h
+    · simp [List.dropWhile, ha] at h; rw [← h.1]; simpa using ha
+
+theorem readNumber_spec {env : Env} (hfix : env.cfg.fixH = true) (G : NumKind → Grammar) (k : NumKind)
+    (hP : GrammarOK (G k)) (f : Nat) (st : St) (h : Inv env st) (hf : env.bytes.length + 1 < f) :
+    canon (.readNumber k) (readNumber env (G k) f st).1 = (specOp G (.readNumber k) (st.rest env)).1 ∧
+    (readNumber env (G k) f st).2.offset = st.offset + (specOp G (.readNumber k) (st.rest env)).2 ∧
+    Inv env (readNumber env (G k) f st).2 := by
+  have hrl : (st.rest env).length < f := by rw [h.rest_length]; omega
+  have hs := skipSpaces_spec hfix isSpace f st h hrl
+  simp only at hs
+  obtain ⟨h1, h2, h3⟩ := hs
+  rw [specOp_readNumber]
+  unfold readNumber
+  generalize hout : skipSpaces env isSpace f st = out at h1 h2 h3
+  obtain ⟨r, st1⟩ := out
+  simp only at h1 h2 h3
+  rcases h1 with h1 | ⟨h1, h1'⟩
+  · subst h1
+    dsimp only
+    have hr1 : st1.rest env = (st.rest env).dropWhile isSpace := by
+      simp only [St.rest, h2, ← List.drop_drop]
+      exact drop_takeWhile_length isSpace _
+    have := numLoop_spec hfix (G k) hP f st1 h3 (by have := mu_le env st1; omega)
+      (by intro c t hc; rw [hr1] at hc; exact dropWhile_head hc)
+    simp only at this
+    rw [hr1] at this
+    obtain ⟨t1, t2⟩ := this
+    by_cases hc : (st.rest env).dropWhile isSpace = []
+    · rw [if_pos hc]
+      rw [hc] at t1
+      simp only [List.takeWhile, hP.empty] at t1
+      refine ⟨?_, by rw [t1.2, h2], t2⟩
+      rw [t1.1]; rfl
+    · rw [if_neg hc]
+      cases hp : G k ((st.rest env).dropWhile isSpace |>.takeWhile (fun b => !isSpace b)) with
+      | none =>
+        rw [hp] at t1
+        dsimp only at t1 ⊢
+        refine ⟨?_, by rw [t1.2, h2], t2⟩
+        rw [t1.1]
+        -- a non-empty token: canon leaves the parse error alone
+        cases hd : (st.rest env).dropWhile isSpace with
+        | nil => exact absurd hd hc
+        | cons c t =>
+          have := dropWhile_head hd
+          simp [List.takeWhile, this, canon]
+      | some r =>
+        obtain ⟨v, cnt⟩ := r
+        rw [hp] at t1
+        dsimp only at t1 ⊢
+        refine ⟨by rw [t1.1]; rfl, by rw [t1.2, h2]; omega, t2⟩
+  · subst h1
+    rw [if_pos h1']
+    exact ⟨rfl, h2, h3⟩
+
 end KV.FilePiece
